@@ -468,6 +468,13 @@ class Canon:
         m = _re.match(r'^(?:&(?:mut )?)*\[.*; (\d+)\]$', (xs.ty or '').strip())
         if m:
             return m.group(1)
+        # producers of fixed-length vectors: one SM4 block (I-SM4 reverse-out pins the 16 output bytes)
+        for y in xs.walk():
+            if y.k == 'call' and y.name and y.name.endswith('<impl Sm4Cipher>::encrypt'):
+                t_ = self.c(xs)
+                if t_.startswith(('try(encrypt($self.cipher, ', 'encrypt($self.cipher, ', 'unwrap(encrypt($self.cipher, ')):
+                    return '16'
+                break
         if xs.k == 'call' and last(xs.name) in ('index', 'index_mut') and len(xs.args) == 2:
             r = strip(xs.args[1])
             if r.k == 'aggr' and r.name == 'RangeTo::RangeTo' and const_int(r.args[0]) is not None:
@@ -574,6 +581,18 @@ class Canon:
                 src = strip(src.args[0])
             if src.k == 'call' and last(src.name) in ('iter', 'iter_mut') and src.args:
                 coll = src.args[0]
+                cs_ = strip(coll)
+                if cs_.k == 'call' and last(cs_.name) in ('remainder', 'into_remainder') and len(cs_.args) == 1 and not rev:
+                    ch_ = strip(cs_.args[0])
+                    while ch_.k == 'call' and last(ch_.name) in ('into_iter', 'by_ref') and ch_.args:
+                        ch_ = strip(ch_.args[0])
+                    if ch_.k == 'call' and last(ch_.name) in ('chunks_exact', 'chunks_exact_mut') and len(ch_.args) == 2 and const_int(ch_.args[1]):
+                        # the part of x that chunks_exact(k) leaves over: x[(len/k)*k ..], of length len - (len/k)*k < k
+                        k_ = const_int(ch_.args[1])
+                        X_ = self.c(ch_.args[0])
+                        A_ = 'MulWithOverflow(Div(len(%s), %d), %d).0' % (X_, k_, k_)
+                        I_ = 'each(Range::Range{0, SubWithOverflow(len(%s), %s).0})' % (X_, A_)
+                        return '%s[AddWithOverflow(%s, %s).0]' % (X_, A_, I_), I_
                 n = self.coll_len(coll)
                 base, off = self.coll_base(coll)
                 ver = self.borrow_version(src)
@@ -610,6 +629,19 @@ class Canon:
             # both sides advance together: one index variable, a reversed side counts down from its end
             a_, b_ = one(it.args[0], zipped=True), one(it.args[1], zipped=True)
             if a_ and b_:
+                # zip stops with the shorter side: a remainder of chunks_exact(k) (fewer than k elements) zipped with a
+                # collection of at least k elements runs over the remainder's index
+                import re as _re7
+                for s_, l_ in ((a_, b_), (b_, a_)):
+                    m_s = _re7.match(r'^each\(Range::Range\{0, SubWithOverflow\(len\((.*)\), MulWithOverflow\(Div\(len\(\1\), (\d+)\), \2\)\.0\)\.0\}\)$', s_[1])
+                    m_l = _re7.match(r'^each\(Range::Range\{0, (\d+)\}\)$', l_[1])
+                    if m_s and m_l and int(m_l.group(1)) >= int(m_s.group(2)) and s_[1] != l_[1]:
+                        fixed = (l_[0].replace(l_[1], s_[1]), s_[1])
+                        if l_ is a_:
+                            a_ = fixed
+                        else:
+                            b_ = fixed
+                        break
                 el = 'tuple{%s, %s}' % (a_[0], b_[0])
                 return 'tuple{%s, %s}' % (a_[1], el) if enum else el
             return None
